@@ -150,6 +150,7 @@ def polarity_rule(program, res, rule="C18-S2", windows=False):
                                         f"flags and keys can differ in length or order", c)
         if not found:
             sorts = [c for c in ast.walk(m.node) if (isinstance(c, ast.Call) and isinstance(c.func, ast.Attribute) and c.func.attr in ("sort_values", "sort"))
+                     or (isinstance(c, ast.Call) and any(kw.arg in ("order_by", "descending", "ascending", "sort_by") for kw in c.keywords))
                      or (isinstance(c, ast.Constant) and isinstance(c.value, str) and "ORDER BY" in c.value)]
             if not sorts:
                 raise AnalysisError(f"{m.qualname}: neither a sort nor a direction flag expression found")
